@@ -34,6 +34,14 @@ def build(kind, shape, clauses):
     """shape: 'flat2' = two-pin components c1, c2 + top-level t, t2;  'flat3' adds c3;
     'nested' = c1 is a Comp2 whose own connector p is connected inside to a sub-component (mixed
     inside/outside roles of c1.p at two levels)."""
+    if shape == "twoclass":
+        # two connector classes with the same short name (E.Pin, T.Pin) and different variable lists in one model
+        e = Cls("E", kind="package", classes=[Cls("Pin", kind="connector", comps=[Comp("v"), Comp("i", prefixes=("flow",))])])
+        t = Cls("T", kind="package", classes=[Cls("Pin", kind="connector", comps=[Comp("temp"), Comp("w"), Comp("q", prefixes=("flow",))])])
+        ce = Cls("CompE", comps=[Comp("p", "E.Pin"), Comp("p2", "E.Pin")])
+        ct = Cls("CompT", comps=[Comp("p", "T.Pin"), Comp("p2", "T.Pin")])
+        comps = [Comp("c1", "CompE"), Comp("d1", "CompT"), Comp("t", "E.Pin"), Comp("t2", "T.Pin")]
+        return Lib([e, t, ce, ct, Cls("Top", comps=comps, eqs=[("connect", a, b) for a, b in clauses])]), "Top"
     classes = [connector(kind), Cls("Comp", comps=[Comp("p", "Pin"), Comp("p2", "Pin")])]
     comps = [Comp("c1", "Comp"), Comp("c2", "Comp")]
     if shape == "flat3":
@@ -54,17 +62,21 @@ ENDPOINTS = {
     "flat2w": ["c1.p", "c1.p2", "c2.p", "c2.p2", "t", "t2"],
     "flat3": ["c1.p", "c1.p2", "c2.p", "c2.p2", "c3.p", "t", "t2"],
     "nested": ["c1.p", "c1.p2", "c2.p", "t"],
+    "twoclass": ["c1.p", "c1.p2", "t", "d1.p", "d1.p2", "t2"],
 }
 
 
 def jobs(tier):
     out = []
-    plan = [("vi", "flat2", 3), ("vwij", "flat2", 2), ("vii-param", "flat2", 1), ("vi", "nested", 2)]
+    plan = [("vi", "flat2", 3), ("vwij", "flat2", 2), ("vii-param", "flat2", 1), ("vi", "nested", 2), ("vi", "twoclass", 2)]
     if tier == "thorough":
-        plan = [("vi", "flat2", 4), ("vi", "flat3", 3), ("vwij", "flat2w", 3), ("vii-param", "flat2", 2), ("vi", "nested", 3), ("vwij", "nested", 2)]
+        plan = [("vi", "flat2", 4), ("vi", "flat3", 3), ("vwij", "flat2w", 3), ("vii-param", "flat2", 2), ("vi", "nested", 3), ("vwij", "nested", 2), ("vi", "twoclass", 3)]
     for kind, shape, n in plan:
         eps = ENDPOINTS[shape]
         pairs = [(a, b) for a in eps for b in eps if a != b]
+        if shape == "twoclass":  # a connect clause joins connectors of one class
+            ke = lambda x: x in ("c1.p", "c1.p2", "t")  # noqa: E731
+            pairs = [(a, b) for a, b in pairs if ke(a) == ke(b)]
         for k in range(0, n + 1):
             for seq in itertools.product(pairs, repeat=k):
                 out.append((kind, shape, seq))
@@ -102,7 +114,7 @@ def shape_of(seq):
 def check(job):
     kind, shape, seq = job
     bshape = "flat2" if shape == "flat2w" else shape
-    lib, target = build(kind, "flat3" if shape == "flat3" else bshape, seq)
+    lib, target = build(kind, bshape, seq)
     text = lib.text()
     case = {"kind": kind, "shape": shape, "clauses": [list(c) for c in seq], "text": text}
     flat = F.flatten(lib, target)
